@@ -410,7 +410,7 @@ SUBCHECKS = [
         doc="same element sequence as 2-D/Fortran/strided/Series arrays, integer dtypes, extra coordinates, for fit and query inputs; prediction has the query's shape"),
     Sub("permutation", check_permutation, strategy=permutation_cases(), quick=250, thorough=1500, shards_quick=4,
         doc="reordering the data points leaves predictions unchanged up to solver round-off"),
-    Sub("large_query", check_large, strategy=large_cases(), quick=12, thorough=60, shards_quick=2,
+    Sub("large_query", check_large, strategy=large_cases(), quick=12, thorough=60, shards_quick=2, heavy=True,
         doc="a query of 1 500 - 30 000 points predicts bitwise what its pieces predict (chunked or vectorised evaluation must not couple the points)"),
     Sub("linearity", check_linearity, strategy=linearity_cases(), quick=250, thorough=1500, shards_quick=4,
         doc="fit(a*d1 + b*d2) = a*fit(d1) + b*fit(d2) for the gridders that are linear in the data"),
